@@ -54,6 +54,18 @@ static std::string op_prfs(const Toks &t) {
 }
 static Reg r_prfs("PRFS", op_prfs);
 
+// RE:<seed> as the last token: reach the operation through <op>_reinit after a prior history on the same object
+static bool re_token(const Toks &t, unsigned &seed) {
+    const std::string &l = t[t.size() - 1];
+    if (l.size() > 3 && l.compare(0, 3, "RE:") == 0) { seed = (unsigned)strtoul(l.c_str() + 3, 0, 10); return true; }
+    return false;
+}
+static std::vector<unsigned char> junk(unsigned &seed, size_t n) {
+    std::vector<unsigned char> v(n);
+    for (size_t i = 0; i < n; ++i) { seed = seed * 1103515245u + 12345u; v[i] = (unsigned char)(seed >> 16); }
+    return v;
+}
+
 static std::string op_hm(const Toks &t) {
     bool a = t[1] == "hmaca";
     Buf k(unhex(t[2]), true), out(32);
@@ -62,7 +74,23 @@ static std::string op_hm(const Toks &t) {
         if (a) ascon_hmaca(out.p, k.p, k.n, m.p, m.n); else ascon_hmac(out.p, k.p, k.n, m.p, m.n);
         return out.hx();
     }
+    unsigned seed = 0; bool re = re_token(t, seed);
     std::vector<std::vector<unsigned char> > cs = chunks_of(t.size() > 3 ? t[3] : "");
+    if (re) {
+        std::vector<unsigned char> k0 = junk(seed, 1 + seed % 70), m0 = junk(seed, seed % 50);
+        unsigned char d0[32];
+        if (a) { ascon_hmaca_state_t st; ascon_hmaca_init(&st, k0.data(), k0.size()); ascon_hmaca_update(&st, m0.data(), m0.size());
+            if (seed & 1) ascon_hmaca_finalize(&st, k0.data(), k0.size(), d0);
+            ascon_hmaca_reinit(&st, k.p, k.n);
+            for (size_t i = 0; i < cs.size(); ++i) { Buf c(cs[i], true); ascon_hmaca_update(&st, c.p, c.n); }
+            ascon_hmaca_finalize(&st, k.p, k.n, out.p); ascon_hmaca_free(&st); }
+        else { ascon_hmac_state_t st; ascon_hmac_init(&st, k0.data(), k0.size()); ascon_hmac_update(&st, m0.data(), m0.size());
+            if (seed & 1) ascon_hmac_finalize(&st, k0.data(), k0.size(), d0);
+            ascon_hmac_reinit(&st, k.p, k.n);
+            for (size_t i = 0; i < cs.size(); ++i) { Buf c(cs[i], true); ascon_hmac_update(&st, c.p, c.n); }
+            ascon_hmac_finalize(&st, k.p, k.n, out.p); ascon_hmac_free(&st); }
+        return out.hx();
+    }
     if (a) { ascon_hmaca_state_t st; ascon_hmaca_init(&st, k.p, k.n);
         for (size_t i = 0; i < cs.size(); ++i) { Buf c(cs[i], true); ascon_hmaca_update(&st, c.p, c.n); }
         ascon_hmaca_finalize(&st, k.p, k.n, out.p); ascon_hmaca_free(&st); }
@@ -89,6 +117,24 @@ static std::string op_km(const Toks &t) {
     std::vector<std::vector<unsigned char> > cs = chunks_of(t[5] == "-" ? "" : t[5]);
     std::vector<size_t> outs = ints_of(t[6]);
     std::vector<std::string> res;
+    unsigned seed = 0; bool re = re_token(t, seed);
+    if (re) {
+        std::vector<unsigned char> k0 = junk(seed, 1 + seed % 40), c0 = junk(seed, seed % 20), m0 = junk(seed, seed % 50);
+        unsigned char d0[16];
+        if (a) { ascon_kmaca_state_t st; ascon_kmaca_init(&st, k0.data(), k0.size(), c0.data(), c0.size(), seed % 3 ? 0 : 16);
+            ascon_kmaca_absorb(&st, m0.data(), m0.size()); if (seed & 1) ascon_kmaca_squeeze(&st, d0, 16);
+            ascon_kmaca_reinit(&st, k.p, k.n, cu.p, cu.n, L);
+            for (size_t i = 0; i < cs.size(); ++i) { Buf c(cs[i], true); ascon_kmaca_absorb(&st, c.p, c.n); }
+            for (size_t i = 0; i < outs.size(); ++i) { Buf o(outs[i]); ascon_kmaca_squeeze(&st, o.p, o.n); res.push_back(o.hx()); }
+            ascon_kmaca_free(&st); }
+        else { ascon_kmac_state_t st; ascon_kmac_init(&st, k0.data(), k0.size(), c0.data(), c0.size(), seed % 3 ? 0 : 16);
+            ascon_kmac_absorb(&st, m0.data(), m0.size()); if (seed & 1) ascon_kmac_squeeze(&st, d0, 16);
+            ascon_kmac_reinit(&st, k.p, k.n, cu.p, cu.n, L);
+            for (size_t i = 0; i < cs.size(); ++i) { Buf c(cs[i], true); ascon_kmac_absorb(&st, c.p, c.n); }
+            for (size_t i = 0; i < outs.size(); ++i) { Buf o(outs[i]); ascon_kmac_squeeze(&st, o.p, o.n); res.push_back(o.hx()); }
+            ascon_kmac_free(&st); }
+        return join(res);
+    }
     if (a) { ascon_kmaca_state_t st; ascon_kmaca_init(&st, k.p, k.n, cu.p, cu.n, L);
         for (size_t i = 0; i < cs.size(); ++i) { Buf c(cs[i], true); ascon_kmaca_absorb(&st, c.p, c.n); }
         for (size_t i = 0; i < outs.size(); ++i) { Buf o(outs[i]); ascon_kmaca_squeeze(&st, o.p, o.n); res.push_back(o.hx()); }
@@ -113,6 +159,22 @@ static std::string op_kd(const Toks &t) {
     size_t L = (size_t)strtoull(t[4].c_str(), 0, 10);
     std::vector<size_t> outs = ints_of(t[5]);
     std::vector<std::string> res;
+    unsigned seed = 0; bool re = re_token(t, seed);
+    if (re) {
+        std::vector<unsigned char> k0 = junk(seed, 1 + seed % 40), c0 = junk(seed, seed % 20);
+        unsigned char d0[24];
+        if (a) { ascon_kdfa_state_t st; ascon_kdfa_init(&st, k0.data(), k0.size(), c0.data(), c0.size(), seed % 3 ? 0 : 24);
+            if (seed & 1) ascon_kdfa_squeeze(&st, d0, 24);
+            ascon_kdfa_reinit(&st, k.p, k.n, cu.p, cu.n, L);
+            for (size_t i = 0; i < outs.size(); ++i) { Buf o(outs[i]); ascon_kdfa_squeeze(&st, o.p, o.n); res.push_back(o.hx()); }
+            ascon_kdfa_free(&st); }
+        else { ascon_kdf_state_t st; ascon_kdf_init(&st, k0.data(), k0.size(), c0.data(), c0.size(), seed % 3 ? 0 : 24);
+            if (seed & 1) ascon_kdf_squeeze(&st, d0, 24);
+            ascon_kdf_reinit(&st, k.p, k.n, cu.p, cu.n, L);
+            for (size_t i = 0; i < outs.size(); ++i) { Buf o(outs[i]); ascon_kdf_squeeze(&st, o.p, o.n); res.push_back(o.hx()); }
+            ascon_kdf_free(&st); }
+        return join(res);
+    }
     if (a) { ascon_kdfa_state_t st; ascon_kdfa_init(&st, k.p, k.n, cu.p, cu.n, L);
         for (size_t i = 0; i < outs.size(); ++i) { Buf o(outs[i]); ascon_kdfa_squeeze(&st, o.p, o.n); res.push_back(o.hx()); }
         ascon_kdfa_free(&st); }
